@@ -10,12 +10,8 @@ func c14Specs(tier string) []*Spec {
 	var specs []*Spec
 	keys := bs("a", "b")
 	add := func(name string, cfg Cfg, depth, maint int) {
-		wt := 1
-		if depth >= 7 {
-			wt = 8
-		}
 		a := c14Alpha()
-		specs = append(specs, &Spec{Weight: wt, ID: "C14", Name: name, Cfg: cfg, Keys: keys, Vals: bs("x"), MaxDepth: depth, MaxMaint: maint,
+		specs = append(specs, &Spec{ID: "C14", Name: name, Cfg: cfg, Keys: keys, Vals: bs("x"), MaxDepth: depth, MaxMaint: maint,
 			Alphabet: a.Ops, Oracles: []Oracle{oracleVersions([]byte("a"))}, Strict: true})
 	}
 	iv := func(n int64) Cfg { return Cfg{Fast: true, IVSet: true, IV: n} }
